@@ -362,6 +362,48 @@ func runC22Extra(c *Ctx) {
 			c.undecided("C22.build-loop", "NewTransactionListFromSlice shortcut/writer", fn.Pos(), fmt.Sprintf("found %d of 2 constructs", n))
 		}
 	}
+	// lists opened for fast sync resolve through the builder; a list that owns a writer flushes
+	// through it (the snapshot alone would only reach the writer's in-memory layer)
+	for _, sp := range [][2]string{{"service/transaction", "NewTransactionListWithBuilder"}, {"service/txresult", "NewReceiptListWithBuilder"}} {
+		f := c.mustFn(sp[0], "", sp[1])
+		if f == nil {
+			continue
+		}
+		okR := false
+		for _, cs := range c.calls(f, byMethod("Resolve")) {
+			_, a := callArgs(cs.Common())
+			if len(a) == 1 && render(a[0]) == "$0" {
+				for _, e := range exitAlts(f) {
+					if dominatesInstr(cs.Instr, e.Ret) {
+						okR = true
+					}
+				}
+			}
+		}
+		c.check(okR, "C22.builder-resolve", sp[1]+" registers the list's trie with the builder", f.Pos(), "snapshot.Resolve(builder)", sp[1]+" returns a list whose nodes the builder never requests: after a fast sync every Get and the iteration fail")
+	}
+	if f := c.mustFn("service/transaction", "transactionList", "Flush"); f != nil {
+		n := 0
+		for _, cs := range c.calls(f, byMethod("Flush")) {
+			r := render(cs.Common().Value)
+			if cs.Common().IsInvoke() && strings.HasSuffix(r, ".writer") {
+				n++
+				continue
+			}
+			n++
+			c.requireAt("C22.flush-path", "transactionList.Flush flushes the snapshot itself", cs.Instr, wSame("the list has no writer", `^\$r\.writer$`, `^nil$`))
+		}
+		if n < 2 {
+			c.undecided("C22.flush-path", "transactionList.Flush", f.Pos(), fmt.Sprintf("expected the writer path and the snapshot path, found %d Flush calls", n))
+		}
+	}
+	// the RLP writer hands its pooled list buffer back only after the list was written out
+	if f := c.mustFn("common/codec", "rlpWriter", "Close"); f != nil {
+		wl := c.calls(f, byMethod("writeList"))
+		fr := c.calls(f, byCallee("common/codec.freeRLPParent"))
+		okO := len(wl) == 1 && len(fr) == 1 && dominatesInstr(wl[0].Instr, fr[0].Instr)
+		c.check(okO, "C22.key-encoding/pool-order", "rlpWriter.Close writes the list before recycling its buffer", f.Pos(), "writeList → freeRLPParent", "the pooled buffer is returned before its bytes were written out: a concurrent encoder (transaction and receipt lists are flushed in parallel) overwrites them")
+	}
 	{
 		sub := &Ctx{Prop: c.Prop, Tier: c.Tier, L: c.L}
 		runC23(sub)
